@@ -123,7 +123,7 @@ def gen_case(rng):
         elif k < 11:
             ops.append({'op': 'queue_input', 'xs': [rng.choice(['q', '7', 'zz']) for _ in range(rng.randrange(0, 3))]})
         else:
-            ops.append({'op': 'clear_input'})
+            ops.append({'op': rng.choice(['clear_input', 'clear_input', 'clear_context'])})
     # helper functions are defined by a first silent run
     pre = []
     if fns:
@@ -160,6 +160,8 @@ def coq_op(op):
         return '(%s %s)' % ('QueueInput' if op.get('keep') else 'SetInput', clist([cstr_pts(x) for x in op['xs']]))
     if k == 'queue_input':
         return '(QueueInput %s)' % clist([cstr_pts(x) for x in op['xs']])
+    if k == 'clear_context':
+        return 'ClearContext'
     return 'ClearInput'
 
 
@@ -199,6 +201,8 @@ def oracle(case, res):
             q = q + list(op['xs'])
         elif k == 'clear_input':
             q = []
+        elif k == 'clear_context':
+            all_texts = []
         want_raw = ''.join(texts)
         if o['raw'] != want_raw or o['raw_cmd'] != want_raw:
             return ('raw', 'after op %d raw output is %r, student code wrote %r' % (i, o['raw'], want_raw))
@@ -215,6 +219,11 @@ def oracle(case, res):
         got = [(c[0], c[1]) for c in o['ctxs']]
         if got != [(t, v) for t, v in all_texts]:
             return ('context', 'after op %d per-execution records are %r, expected %r' % (i, got, all_texts))
+        # a record is found through its id: ids index the history, and the result of a call / evaluate leads to ITS record
+        if o.get('ctx_ids') is not None and o['ctx_ids'] != list(range(len(o['ctx_ids']))):
+            return ('context-ids', 'after op %d the records carry the ids %r: get_context(id) indexes the history by them' % (i, o['ctx_ids']))
+        if o.get('result_lookup') is not None and o['result_lookup'] is not True:
+            return ('context-lookup', 'after op %d the record of the value just returned cannot be found through the value: %s' % (i, o['result_lookup']))
     return None
 
 
